@@ -229,4 +229,29 @@ pub fn random_lines(rng: &mut Rng, colon_conts: bool) -> Vec<Line> {
     ls
 }
 
+/// orphan continuation lines: indentation followed by text, with no field to continue. They are
+/// corrupt (rejected) as the first line of the document or directly after a blank line.
+pub const ORPHAN_LINES: [&str; 7] = [" x", "\tfoo: bar", "  .", " \t é", " Source: a", " -", "  a b"];
+
+/// position rule for a corrupted line that begins with indentation: it must be the first line or
+/// directly follow a blank line (after a field it would be a continuation line, after a comment
+/// line it is the unsupported 'comment inside a value' construct), its text must be non-empty and
+/// must not begin with '#'.
+pub fn raw_positions_ok(ls: &[Line]) -> bool {
+    for (i, l) in ls.iter().enumerate() {
+        if let Line::Raw(t) = l {
+            if t.chars().next().map(is_indent).unwrap_or(false) {
+                let rest = t.trim_start_matches(is_indent);
+                if rest.is_empty() || rest.starts_with('#') || rest.chars().any(is_nl) {
+                    return false;
+                }
+                if i > 0 && ls[i - 1] != Line::Blank {
+                    return false;
+                }
+            }
+        }
+    }
+    true
+}
+
 pub const BAD_LINES: [&str; 8] = ["foo", "-x: y", "é: x", ": x", "a b: c", "~", "=", "Ünï: x"];
